@@ -19,6 +19,8 @@ pub enum Family {
     Eager,
     /// many identical failures in a row: the actor is stopped early, then dozens of the same operation
     Flood,
+    /// asks (and tells) given up by their callers while still queued, then an idle actor is stopped, killed or left alone
+    Abandon,
     /// the shutdown window: a backlog, then stop() (also on a full mailbox), then traffic, kill, drops
     /// and ticks while the marker travels and while on_stop is suspended
     Shutdown,
@@ -34,6 +36,7 @@ pub fn family_of(name: &str) -> Option<Family> {
         "shutdown" => Family::Shutdown,
         "eager" => Family::Eager,
         "flood" => Family::Flood,
+        "abandon" => Family::Abandon,
         _ => return None,
     })
 }
@@ -53,7 +56,11 @@ const CAPS: &[usize] = &[1, 1, 2, 3, 4, 8, 32, 33];
 impl Gen {
     pub fn new(seed: u64, family: Family) -> Self {
         let mut rng = Rng::new(seed);
-        let len = if family == Family::Flood { 50 + rng.below(30) as usize } else { 20 + rng.below(70) as usize };
+        let len = match family {
+            Family::Flood => 50 + rng.below(30) as usize,
+            Family::Abandon => 14 + rng.below(6) as usize,
+            _ => 20 + rng.below(70) as usize,
+        };
         Gen { rng, family, len, emitted: 0, phase: 0, closing_gates: 0, closing_ticks: 0 }
     }
 
@@ -61,6 +68,7 @@ impl Gen {
         let r = &mut self.rng;
         let cap = match self.family {
             Family::Burst | Family::Timeouts | Family::Shutdown | Family::Eager => *r.pick(&[1usize, 1, 2, 2, 3]),
+            Family::Abandon => *r.pick(&[4usize, 8, 32]),
             _ => *r.pick(CAPS),
         };
         let so = |r: &mut Rng, okw: u64| match r.weighted(&[okw, 1, 1]) {
@@ -246,6 +254,39 @@ impl Gen {
                 3 => format!("stop {}", self.pick_handle(w, true)),
                 _ => format!("kill {}", self.pick_handle(w, true)),
             },
+            Family::Abandon => {
+                // start-up; one gated handler; sends with short deadlines queue behind it and expire there;
+                // the handler is released; then the (idle) actor is killed, stopped, sent one more message or left alone
+                let e = self.emitted;
+                let n_ab = 1 + (self.len % 3);
+                if e <= 2 {
+                    "gate".to_string()
+                } else if e == 3 {
+                    "tell 0 ok".to_string()
+                } else if e < 4 + n_ab {
+                    match self.rng.weighted(&[6, 2, 1]) {
+                        0 => format!("askt 0 {} ok", self.rng.pick(&[5u64, 15])),
+                        1 => format!("tellt 0 {} ok", self.rng.pick(&[5u64, 15])),
+                        _ => "tell 0 ok".to_string(),
+                    }
+                } else if e < 4 + n_ab + 3 {
+                    "tick".to_string()
+                } else if e < 4 + n_ab + 3 + 2 {
+                    "gate".to_string()
+                } else if e == 4 + n_ab + 5 {
+                    match self.rng.weighted(&[4, 3, 1, 1]) {
+                        0 => "kill 0".to_string(),
+                        1 => "stop 0".to_string(),
+                        2 => "ask 0 ok".to_string(),
+                        _ => "tick".to_string(),
+                    }
+                } else {
+                    match self.rng.weighted(&[3, 1]) {
+                        0 => "gate".to_string(),
+                        _ => "tick".to_string(),
+                    }
+                }
+            }
             Family::Flood => {
                 if self.emitted <= 2 {
                     "gate".to_string()
